@@ -3,6 +3,7 @@ import ShootVerif.Model.TParams
 import ShootVerif.Proofs.CtorSelect
 import ShootVerif.Proofs.CtorFresh
 import ShootVerif.Proofs.CtorAmb
+import ShootVerif.Proofs.Directive
 /-!
 C02 — `NewT(args…)` stores every constructor parameter in exactly the field it is named after
 (including fields promoted from embedded structs, built as nested literals, pointer embeds
@@ -308,3 +309,21 @@ example :
   decide
 
 end ShootVerif.Ctor
+
+namespace ShootVerif.Directive
+
+/-- C02, the `def=` clause at the level of the doc comment: the default the model's `defv` stands for is the TEXT after
+    `def=`, for EVERY non-empty value text without `;` and newline (a Go expression of any shape: quoted literals
+    followed by more, rune and raw-string literals, calls) — the recogniser (tied to the regexp of fields.go by the
+    directive leg) yields exactly that text -/
+theorem C02_def_directive_value (v : List Char) (hne : v ≠ []) (hv : ∀ c ∈ v, c ≠ ';' ∧ c ≠ '\n') :
+    parseDef ("shoot: def=".toList ++ v) = some v := parseDef_value v hne hv
+
+/-- … and it is the same text when further directives follow after a `;`, whatever they are -/
+theorem C02_def_directive_then (v rest : List Char) (hne : v ≠ []) (hv : ∀ c ∈ v, c ≠ ';' ∧ c ≠ '\n') :
+    parseDef ("shoot: def=".toList ++ (v ++ ';' :: rest)) = some v := parseDef_value_then v rest hne hv
+
+/-- non-vacuity on the text a seeded change truncated: the whole expression is the value -/
+example : parseDef ("shoot: def=\"tcp://\" + DefaultHost".toList) = some "\"tcp://\" + DefaultHost".toList := by decide
+
+end ShootVerif.Directive
